@@ -492,7 +492,7 @@ class Item:
         self.rewrites.append({"rule": "proof", "at": "body start", "what": why})
         return self
 
-    STR_PREDICATES = ("starts_with", "ends_with", "contains", "is_empty", "eq_ignore_ascii_case", "is_ascii")
+    STR_PREDICATES = ("starts_with", "ends_with", "eq_ignore_ascii_case", "is_ascii")
 
     def shim_str_predicates(self):
         """R5, generic: `recv.starts_with(arg)` (and the other boolean str predicates Verus has no specification
@@ -796,6 +796,35 @@ class Extractor:
                     fn_name, line_of(src, s), line_of(src, e), start_lit)
                 return it
         raise ExtractionError("arm block not found")
+
+    def if_blocks(self, file, fn_name, if_lit, name=None, after=None, nth=1):
+        """(then_item, else_item): inner texts of the `{..}` blocks of the `if` whose text starts at if_lit inside fn fn_name."""
+        src = self.read(file)
+        toks, idx = self._find_item(src, "fn", fn_name, after, nth)
+        if idx is None:
+            raise ExtractionError("anchor lost: fn %s in %s" % (fn_name, file))
+        s, e = self._item_span(src, toks, idx)
+        p = src.find(if_lit, s, e)
+        if p < 0:
+            raise ExtractionError("if anchor lost: %r in fn %s (%s)" % (if_lit, fn_name, file))
+        k0 = next(k for k, t in enumerate(toks) if t[1] >= p)
+        kb = find_block_open(src, toks, k0)
+        if kb is None:
+            raise ExtractionError("then-block not found after %r" % if_lit)
+        close = match_brace(src, toks, kb)
+        out = []
+        then_it = Item(self, file, (name or fn_name) + "_then", src[toks[kb][2]:toks[close][1]], line_of(src, toks[kb][2]),
+                       line_of(src, toks[close][1]), "slice")
+        out.append(then_it)
+        if close + 2 < len(toks) and src[toks[close + 1][1]:toks[close + 1][2]] == "else" and src[toks[close + 2][1]] == "{":
+            c2 = match_brace(src, toks, close + 2)
+            out.append(Item(self, file, (name or fn_name) + "_else", src[toks[close + 2][2]:toks[c2][1]],
+                            line_of(src, toks[close + 2][2]), line_of(src, toks[c2][1]), "slice"))
+        else:
+            raise ExtractionError("else-block not found after %r" % if_lit)
+        for it in out:
+            it.dropped = "rest of fn %s outside the if/else at `%s`" % (fn_name, if_lit)
+        return out
 
     def describe(self):
         return [i.describe() for i in self.items]
